@@ -279,11 +279,19 @@ fn is_left_chain_of_operator(expression: &expr::E<()>, operator: expr::BinaryOpe
   }
 }
 
+/// Verification hook: number of if-else documents built so far (a work counter that lets the
+/// verification harness observe super-linear formatting cost deterministically).
+#[cfg(samlang_verif)]
+pub static VERIF_IF_ELSE_DOCS_BUILT: std::sync::atomic::AtomicU64 =
+  std::sync::atomic::AtomicU64::new(0);
+
 fn create_doc_for_if_else(
   heap: &Heap,
   comment_store: &CommentStore,
   if_else: &expr::IfElse<()>,
 ) -> Document {
+  #[cfg(samlang_verif)]
+  VERIF_IF_ELSE_DOCS_BUILT.fetch_add(1, std::sync::atomic::Ordering::Relaxed);
   let expanded = create_doc_for_if_else_customized_flattened(heap, comment_store, true, if_else);
   if let Some(flattened) =
     create_doc_for_if_else_customized_flattened(heap, comment_store, false, if_else).flatten()
